@@ -468,6 +468,29 @@ pub fn eval_print<W>(program: &Program, state: &mut State, output: &mut W, index
     let format = program_object.as_str()?;
     let mut argument_pointers = state.operand_stack.pop_reverse_sequence(arguments.to_usize())?;
 
+    // Render the arguments and check the format string before anything is written, so that a print that
+    // fails (unknown escape, placeholder/argument mismatch, unprintable argument) leaves no partial output.
+    let mut rendered_arguments = Vec::with_capacity(argument_pointers.len());
+    while let Some(argument) = argument_pointers.pop() {
+        rendered_arguments.push(argument.evaluate_as_string(&state.heap)?);
+    }
+    let mut placeholders = 0;
+    let mut escaped = false;
+    for character in format.chars() {
+        match (escaped, character) {
+            (true,  '~') | (true, '\\') | (true, '"') | (true, 'n') | (true, 't') | (true, 'r') => { escaped = false; },
+            (true,  chr ) => { bail!("Unknown control sequence \\{}", chr) },
+            (false, '\\') => { escaped = true; },
+            (_,    '~' ) => { placeholders += 1; },
+            (_,    _   ) => { },
+        }
+    }
+    bail_if!(placeholders > rendered_arguments.len(),
+             "Not enough arguments for format `{}`", format);
+    bail_if!(placeholders < rendered_arguments.len(),
+             "{} unused arguments for format `{}`", rendered_arguments.len() - placeholders, format);
+
+    let mut rendered_arguments = rendered_arguments.into_iter();
     let mut escaped = false;
     for character in format.chars(){
         match (escaped, character) {
@@ -480,15 +503,13 @@ pub fn eval_print<W>(program: &Program, state: &mut State, output: &mut W, index
             (true,  chr  ) => { bail!("Unknown control sequence \\{}", chr) },
             (false, '\\') => {                           escaped = true;  },
             (_,    '~'  ) => {
-                let argument = argument_pointers.pop()
+                let argument = rendered_arguments.next()
                     .with_context(|| "Not enough arguments for format `{}`")?;
-                output.write_str(argument.evaluate_as_string(&state.heap)?.as_str())?
+                output.write_str(argument.as_str())?
             },
             (_,    chr ) => { output.write_char(chr)?                       },
         }
     }
-    bail_if!(!argument_pointers.is_empty(),
-             "{} unused arguments for format `{}`", argument_pointers.len(), format);
 
     state.operand_stack.push(Pointer::Null);
     state.instruction_pointer.bump(program);
